@@ -94,7 +94,7 @@ def run_job(job):
             # must still differ as soon as the password, the user (credential id) or the server differs
             base_users = [("alice", b"same password for everybody"), ("alicf", b"same password for everybody"), ("alice", b"same password for everybodz"),
                           ("P" * 57 + "alice", b"same password for everybody"), ("P" * 57 + "bob", b"same password for everybody"),
-                          ("Q" * 25 + "A", b"pw"), ("Q" * 25 + "B", b"pw"), ("R" * 41 + "A", b"pw"), ("R" * 41 + "B", b"pw"), ("S" * 200 + "A", b"pw"), ("S" * 200 + "B", b"pw"), ("carol", b"pw"), ("carol\n", b"pw"), (" carol", b"pw"), ("carol ", b"pw"), ("", b"pw"), (" ", b"pw")]
+                          ("Q" * 25 + "A", b"pw"), ("Q" * 25 + "B", b"pw"), ("R" * 41 + "A", b"pw"), ("R" * 41 + "B", b"pw"), ("S" * 200 + "A", b"pw"), ("S" * 200 + "B", b"pw"), ("carol", b"pw"), ("carol\n", b"pw"), (" carol", b"pw"), ("carol ", b"pw"), ("", b"pw"), (" ", b"pw"), (b"\xff\x01", b"pw"), (b"\xfe\x02", b"pw"), (b"\x80", b"pw"), (b"\xc3\x28", b"pw"), (b"\x00", b"pw")]
             # an over-limit password must be refused (C12); should a registration with it complete nevertheless, it must not share
             # its export key with a registration under its digest, its truncation or its wrapped-length prefix
             import hashlib
@@ -106,7 +106,7 @@ def run_job(job):
                 for srv in ("S1", "S2"):
                     s.rng("fixed", proto.H("c16-fixed-client-tape", su, wi))
                     a = s.cmd("creg_start", rng="fixed", pw=pw, out_state="st.cs", out_msg="st.rq")
-                    b = s.cmd("sreg_start", setup=srv, req="st.rq", cred=u.encode(), out="st.rr")
+                    b = s.cmd("sreg_start", setup=srv, req="st.rq", cred=u if isinstance(u, bytes) else u.encode(), out="st.rr")
                     c = s.cmd("creg_finish", rng="fixed", state="st.cs", pw=pw, resp="st.rr", out="st.up")
                     evals += 3
                     if not (a.ok and b.ok and c.ok):
@@ -126,7 +126,7 @@ def run_job(job):
                 for ek, whos in byk.items():
                     if len(whos) > 1:
                         V("different user / password / server but the same export key (identical client randomness)",
-                          "export key %s shared by %s" % (ek, [(u if len(u) < 30 else u[:8] + "..(%d)" % len(u), proto.short(p_), sv) for u, p_, sv in whos]))
+                          "export key %s shared by %s" % (ek, [(repr(u) if len(u) < 30 else repr(u[:8]) + "..(%d)" % len(u), proto.short(p_), sv) for u, p_, sv in whos]))
                 stats["same_tape_registrations"] = stats.get("same_tape_registrations", 0) + len(same_tape)
             # logins in random interleaving
             nlog = 60 if tier == "quick" else 200
